@@ -366,13 +366,14 @@ def run_cli(rec, seed, i, raw=None):
     kind = ["both", "both", "method-only", "none", "pdb"][(i // 5) % 5]
     rec.count("note:cli-metadata-" + kind)
     if kind == "pdb" and emit.fits_pdb(rows) and all((r["chain"] or "").strip() for r in rows):
-        return _run_cli_text(rec, fn, emit.emit_pdb(rows), flags, i, ".pdb", metadata=("", ""))
+        return _run_cli_text(rec, fn, emit.emit_pdb(rows), flags, i, ".pdb", metadata=("", ""), rows=rows)
     cats = {"both": extra, "method-only": extra[:1]}.get(kind, [])
-    text = emit.emit_cif(rows, extra_cats=cats)
-    return _run_cli_text(rec, fn, text, flags, i, ".cif", metadata=("X-RAY DIFFRACTION" if cats else "", "2.10" if len(cats) == 2 else ""))
+    # occupancies in every spelling the mmCIF number grammar allows (0.50, +0.50, 5.0E-01, .50)
+    text = emit.emit_cif(rows, extra_cats=cats, occ_spellings=i % 2 == 0)
+    return _run_cli_text(rec, fn, text, flags, i, ".cif", metadata=("X-RAY DIFFRACTION" if cats else "", "2.10" if len(cats) == 2 else ""), rows=rows)
 
 
-def _run_cli_text(rec, fn, text, flags, i, suffix, metadata):
+def _run_cli_text(rec, fn, text, flags, i, suffix, metadata, rows=None):
     from rnapolis import clashfinder, parser
 
     d = tempfile.mkdtemp(prefix="vmon-c17-")
@@ -411,6 +412,19 @@ def _run_cli_text(rec, fn, text, flags, i, suffix, metadata):
             own = orig(parser.read_3d_structure(fh, 1).residues, *[f in flags for f in ("--ignore-occupancy", "--ignore-autoclashes", "--nucleic-acid-only", "--require-same-atom-name", "--enable-molprobity-mode")])
         key = lambda lst: sorted((str(ri), ai.name, round(ai.x, 3), round(ai.y, 3), round(ai.z, 3), str(rj), aj.name, round(aj.x, 3), round(aj.y, 3), round(aj.z, 3), occ) for (ri, ai), (rj, aj), occ in lst)
         ko, kc = key(own), key(clashes)
+        if rows is not None:
+            # ... and it is the list for the atoms WRITTEN into the file (names, coordinates, occupancies of the table
+            # the file was made from, as an in-memory structure with the reader's one-letter names)
+            from vmon import work3d
+
+            with open(pin) as fh:
+                read = parser.read_3d_structure(fh, 1)
+            twin = work3d.structure_from_rows(rows, read)
+            if sum(len(r.atoms) for r in twin.residues) != sum(len(r.atoms) for r in read.residues):
+                rec.undecided("cli.list-is-the-list-for-the-written-atoms", "the reader kept another number of atoms")
+            else:
+                kw = key(orig(twin.residues, *[f in flags for f in ("--ignore-occupancy", "--ignore-autoclashes", "--nucleic-acid-only", "--require-same-atom-name", "--enable-molprobity-mode")]))
+                rec.check("cli.list-is-the-list-for-the-written-atoms", kw == kc, lambda: det({"tool": len(kc), "written-atoms": len(kw), "only-written": [x for x in kw if x not in set(kc)][:3], "only-tool": [x for x in kc if x not in set(kw)][:3]}))
         rec.check("cli.list-equals-library-list", ko == kc, lambda: det({"tool": len(kc), "library": len(ko), "only-library": [x for x in ko if x not in set(kc)][:3], "only-tool": [x for x in kc if x not in set(ko)][:3]}))
         # expected maxima over the listed clashes
         res_max, chain_max, atom_lines = {}, {}, []
